@@ -35,7 +35,7 @@ func C17() runner.Property {
 
 func c17Objects() []metav1.Object {
 	nss, names := []string{"a", "b", "c"}, []string{"x", "y", "z"}
-	lm3, lm2 := labelMaps([]string{"1", "2", "3"}), labelMaps([]string{"1", "2"})
+	lm3, lm2 := labelMaps([]string{"1", "2", "3"}), labelMapsE([]string{"1", "2"})
 	few := []map[string]string{nil, {K1: "1"}, {K2: "2"}, {K1: "2", K2: "1"}}
 	var out []metav1.Object
 	for _, ns := range nss {
